@@ -32,7 +32,7 @@ for name in sorted(os.listdir(os.path.join(HERE, "seeded"))):
         out = {}
         for p in props:
             t0 = time.time()
-            c = subprocess.run([os.path.join(HERE, "bin", "check"), p], env=dict(os.environ, PYVC_REPO=scratch), capture_output=True, text=True, timeout=1800)
+            c = subprocess.run([os.path.join(HERE, "bin", "check"), p], env=dict(os.environ, PYVC_REPO=scratch, PYVC_EVIDENCE_DIR=os.path.join(scratch, "_evidence")), capture_output=True, text=True, timeout=1800)
             lines = [l for l in c.stdout.splitlines() if l.startswith(("VIOLATION", "UNDECIDED", "CHECKER"))]
             out[p] = {"exit": c.returncode, "lines": lines[:6], "summary": (c.stdout.strip().splitlines() or [""])[-1], "wall_s": round(time.time() - t0, 1)}
         mp = os.path.join(d, "meta.json")
